@@ -17,7 +17,8 @@
    True/1/1.0); it is proved for the instance used in the correspondence run ([C02_run_keys_decide_eq]). *)
 From Coq Require Import ZArith List Bool Permutation Sorted.
 Require Import PV.Model.Keyed PV.Model.KeyedSpec.
-Require Import PV.Proofs.Keyed PV.Proofs.KeyedAgg PV.Proofs.KeyedRdd PV.Proofs.KeyedPv PV.Proofs.KeyedOrder.
+Require Import PV.Gen.KeyedJoin.
+Require Import PV.Proofs.Keyed PV.Proofs.KeyedAgg PV.Proofs.KeyedRdd PV.Proofs.KeyedPv PV.Proofs.KeyedOrder PV.Proofs.KeyedLink.
 Import ListNotations.
 
 (* ================= the property, per method, end to end (partitioned inputs -> collect()) ================= *)
@@ -192,6 +193,34 @@ Theorem C02_run_key_order_trans : forall a b c, pv_leb a b = true -> pv_leb b c 
 Proof. exact pv_leb_trans. Qed.
 Theorem C02_run_key_order_ints : forall x y, pv_leb (PInt x) (PInt y) = Z.leb x y.
 Proof. exact pv_leb_int. Qed.
+
+(* ================= the regenerated kernels are the hand-named definitions the theorems are about ========== *)
+(* PV.Gen.KeyedJoin is rewritten from rdd.py on every run: the list comprehension each join hands to flatMap
+   (with `k in d` / `d[k]` of the dict it closes over as parameters), subtractByKey's filter and the body of
+   groupByKey's loop.  An edit of one of those lambdas changes the generated text and these stop checking. *)
+Theorem C02_kernel_join : forall K (keqb : K -> K -> bool) V W (d : list (K * list W)) (kv : K * list V),
+  join_fn keqb d kv = gen_join_fn (has_key keqb d) (get_key keqb d) kv.
+Proof. exact @join_fn_link. Qed.
+Theorem C02_kernel_leftOuterJoin : forall K (keqb : K -> K -> bool) V W (d : list (K * list W)) (kv : K * list V),
+  loj_fn keqb d kv = gen_loj_fn (has_key keqb d) (get_key keqb d) kv.
+Proof. exact @loj_fn_link. Qed.
+Theorem C02_kernel_rightOuterJoin : forall K (keqb : K -> K -> bool) V W (d : list (K * list V)) (kv : K * list W),
+  roj_fn keqb d kv = gen_roj_fn (has_key keqb d) (get_key keqb d) kv.
+Proof. exact @roj_fn_link. Qed.
+Theorem C02_kernel_fullOuterJoin : forall K V W (e : K * (list V * list W)), foj_fn e = gen_foj_fn e.
+Proof. exact @foj_fn_link. Qed.
+Theorem C02_kernel_leftSemiJoin : forall K (keqb : K -> K -> bool) V W (d : list (K * list W)) (kv : K * list V),
+  map (fun e => (fst e, (snd e, tt))) (semi_fn keqb d kv) = gen_semi_fn (has_key keqb d) kv.
+Proof. exact @semi_fn_link. Qed.
+Theorem C02_kernel_leftAntiJoin : forall K (keqb : K -> K -> bool) V W (d : list (K * list W)) (kv : K * list V),
+  map (fun e => (fst e, (snd e, @None unit))) (anti_fn keqb d kv) = gen_anti_fn (has_key keqb d) kv.
+Proof. exact @anti_fn_link. Qed.
+Theorem C02_kernel_subtractByKey_filter : forall K V W (e : K * (list V * list W)),
+  subk_keep e = gen_subk_keep (fst (snd e)) (snd (snd e)).
+Proof. exact @subk_keep_link. Qed.
+Theorem C02_kernel_groupByKey_loop : forall K (keqb : K -> K -> bool) V (xs : list (K * V)),
+  group_by_key keqb xs = build keqb gen_group_step gen_group_init xs.
+Proof. exact @group_step_link. Qed.
 
 (* ================= non-vacuity and sanity ================================================================== *)
 Example Zeqb_decides : decides_eq Z.eqb.
